@@ -665,5 +665,250 @@ theorem insertColumn_ofRows {c : Nat} (rs : Rows α) (h : Rect c rs) (column : N
     simp
   · simp [h1]
 
+/-! ## 3. set, map_mut -/
+
+theorem flatten_set_rect {c : Nat} (column : Nat) (v : α) (hc : column < c) :
+    ∀ (rs : Rows α) (row : Nat), Rect c rs → row < rs.length →
+      rs.flatten.set (column + row * c) v = (rs.modify row (·.set column v)).flatten := by
+  intro rs
+  induction rs with
+  | nil => intro row _ h; simp at h
+  | cons x xs ih =>
+    intro row h hr
+    have hx := h.head
+    cases row with
+    | zero =>
+      simp only [Nat.zero_mul, Nat.add_zero, List.flatten_cons, List.modify_zero_cons]
+      rw [List.set_append_left _ _ (by omega)]
+    | succ row =>
+      simp only [List.flatten_cons, List.modify_succ_cons]
+      rw [List.set_append_right _ _ (by rw [hx, Nat.succ_mul]; omega)]
+      have : column + (row + 1) * c - x.length = column + row * c := by
+        rw [hx, Nat.succ_mul]; omega
+      rw [this, ih row h.tail (by simpa using hr)]
+
+theorem rect_modify_set {c : Nat} (rs : Rows α) (h : Rect c rs) (row column : Nat) (v : α) :
+    Rect c (rs.modify row (·.set column v)) := by
+  induction rs generalizing row with
+  | nil => simpa using h
+  | cons x xs ih =>
+    cases row with
+    | zero =>
+      simp only [List.modify_zero_cons]
+      exact Rect.cons (by simp [h.head]) h.tail
+    | succ row =>
+      simp only [List.modify_succ_cons]
+      exact Rect.cons h.head (ih h.tail row)
+
+/-- `set` on the stored form -/
+theorem set_ofRows {c : Nat} (rs : Rows α) (h : Rect c rs) (row column : Nat) (v : α) :
+    (ofRows rs c).set row column v =
+      if row < rs.length ∧ column < c then ⟨ofRows (rs.modify row (·.set column v)) c, none⟩
+      else ⟨ofRows rs c, some .explicit⟩ := by
+  unfold set
+  simp only [ofRows, getIndex]
+  by_cases h1 : row < rs.length
+  · by_cases h2 : column < c
+    · have hi : column + row * c < rs.flatten.length := by
+        rw [length_flatten_rect h]; exact getIndex_lt h1 h2
+      simp only [h1, h2, hi, if_true, and_self]
+      rw [flatten_set_rect column v h2 rs row h h1]
+      simp
+    · simp [h1, h2]
+  · simp [h1]
+
+/-- `map_mut` on the stored form -/
+theorem mapMut_ofRows {c : Nat} (rs : Rows α) (f : α → α) :
+    (ofRows rs c).mapMut f = ⟨ofRows (rs.map (·.map f)) c, none⟩ := by
+  simp [mapMut, ofRows, List.map_flatten]
+
+theorem rect_map_map {c : Nat} (rs : Rows α) (h : Rect c rs) (f : α → α) :
+    Rect c (rs.map (·.map f)) := by
+  intro r hr
+  simp only [List.mem_map] at hr
+  obtain ⟨x, hx, rfl⟩ := hr
+  simp [h x hx]
+
+/-! ## 4. get, from_fn, transpose -/
+
+/-- forget the panic kind -/
+def _root_.EasyMl.Outcome.toOption {β : Type} : Outcome β → Option β
+  | .ok a => some a
+  | .panic _ => none
+
+theorem getP_toOption (m : Matrix α) (r c : Nat) : (m.getP r c).toOption = m.tryGet r c := by
+  unfold getP tryGet
+  by_cases hr : r < m.rows
+  · by_cases hc : c < m.columns
+    · simp only [hr, hc, if_true, and_self]
+      cases m.data[m.getIndex r c]? <;> rfl
+    · simp [hr, hc, Outcome.toOption]
+  · simp [hr, Outcome.toOption]
+
+theorem tryGet_isSome (m : Matrix α) (h : m.data.length = m.rows * m.columns) {r c : Nat}
+    (hr : r < m.rows) (hc : c < m.columns) : ∃ x, m.tryGet r c = some x := by
+  unfold tryGet getIndex
+  have := getIndex_lt hr hc
+  simp only [hr, hc, and_self, if_true]
+  exact ⟨m.data[c + r * m.columns]'(by omega), List.getElem?_eq_getElem (by omega)⟩
+
+theorem getP_of_tryGet (m : Matrix α) {r c : Nat} {x : α} (h : m.tryGet r c = some x) :
+    m.getP r c = .ok x := by
+  have := getP_toOption m r c
+  rw [h] at this
+  cases hg : m.getP r c with
+  | ok a => rw [hg] at this; simp only [Outcome.toOption, Option.some.injEq] at this; rw [this]
+  | panic k => rw [hg] at this; simp [Outcome.toOption] at this
+
+theorem fromFnLoop_append (producer : Nat → Nat → Outcome α) (A B : List (Nat × Nat)) :
+    fromFnLoop producer (A ++ B) =
+      match fromFnLoop producer A with
+      | .panic k => .panic k
+      | .ok xs =>
+        match fromFnLoop producer B with
+        | .panic k => .panic k
+        | .ok ys => .ok (xs ++ ys) := by
+  induction A with
+  | nil =>
+    simp only [List.nil_append, fromFnLoop]
+    cases fromFnLoop producer B <;> rfl
+  | cons p A ih =>
+    obtain ⟨r, c⟩ := p
+    simp only [List.cons_append, fromFnLoop, ih]
+    cases producer r c with
+    | panic k => rfl
+    | ok x =>
+      cases fromFnLoop producer A with
+      | panic k => rfl
+      | ok xs =>
+        cases fromFnLoop producer B with
+        | panic k => rfl
+        | ok ys => rfl
+
+theorem fromFnLoop_row (producer : Nat → Nat → Outcome α) (r : Nat) :
+    ∀ (l2 : List Nat), (∀ c ∈ l2, ∃ x, producer r c = .ok x) →
+      fromFnLoop producer (l2.map fun c => (r, c)) =
+        .ok (l2.filterMap fun c => (producer r c).toOption) := by
+  intro l2
+  induction l2 with
+  | nil => intro _; rfl
+  | cons c l2 ih =>
+    intro h
+    obtain ⟨x, hx⟩ := h c List.mem_cons_self
+    simp only [List.map_cons, fromFnLoop, hx, ih (fun c' hc' => h c' (List.mem_cons_of_mem _ hc'))]
+    rw [List.filterMap_cons_some (b := x) (by rw [hx]; rfl)]
+
+theorem fromFnLoop_pairs (producer : Nat → Nat → Outcome α) (l2 : List Nat) :
+    ∀ (l1 : List Nat), (∀ r ∈ l1, ∀ c ∈ l2, ∃ x, producer r c = .ok x) →
+      fromFnLoop producer (l1.flatMap fun r => l2.map fun c => (r, c)) =
+        .ok ((l1.map fun r => l2.filterMap fun c => (producer r c).toOption).flatten) := by
+  intro l1
+  induction l1 with
+  | nil => intro _; rfl
+  | cons r l1 ih =>
+    intro h
+    simp only [List.flatMap_cons, List.map_cons, List.flatten_cons, fromFnLoop_append,
+      fromFnLoop_row producer r l2 (h r List.mem_cons_self),
+      ih (fun r' hr' => h r' (List.mem_cons_of_mem _ hr'))]
+
+theorem length_filterMap_all_some {β γ : Type} (f : β → Option γ) (l : List β)
+    (h : ∀ x ∈ l, ∃ y, f x = some y) : (l.filterMap f).length = l.length := by
+  induction l with
+  | nil => rfl
+  | cons a l ih =>
+    obtain ⟨y, hy⟩ := h a List.mem_cons_self
+    rw [List.filterMap_cons_some hy]
+    simp [ih (fun x hx => h x (List.mem_cons_of_mem _ hx))]
+
+theorem getElem?_filterMap_all_some {β γ : Type} (f : β → Option γ) (l : List β)
+    (h : ∀ x ∈ l, ∃ y, f x = some y) : ∀ j : Nat, (l.filterMap f)[j]? = l[j]?.bind f := by
+  induction l with
+  | nil => intro j; rfl
+  | cons a l ih =>
+    intro j
+    obtain ⟨y, hy⟩ := h a List.mem_cons_self
+    rw [List.filterMap_cons_some hy]
+    cases j with
+    | zero => simp [hy]
+    | succ j => simpa using ih (fun x hx => h x (List.mem_cons_of_mem _ hx)) j
+
+theorem filterMap_congr' {β γ : Type} {f g : β → Option γ} {l : List β}
+    (h : ∀ x ∈ l, f x = g x) : l.filterMap f = l.filterMap g := by
+  induction l with
+  | nil => rfl
+  | cons a l ih =>
+    simp only [List.filterMap_cons, h a List.mem_cons_self,
+      ih (fun x hx => h x (List.mem_cons_of_mem _ hx))]
+
+/-- a column of the rows, in terms of the checked getter -/
+theorem column_toRows (m : Matrix α) (c : Nat) :
+    Rows.column m.toRows c = (List.range m.rows).filterMap fun r => m.tryGet r c := by
+  unfold Rows.column
+  rw [show m.toRows = (List.range m.rows).map
+    fun r => (m.data.drop (r * m.columns)).take m.columns from rfl, List.filterMap_map]
+  apply filterMap_congr'
+  intro r hr
+  have hr' : r < m.rows := List.mem_range.mp hr
+  have := cell_toRows m r c
+  unfold Rows.cell at this
+  simp only [toRows, List.getElem?_map, List.getElem?_range hr', Option.map_some,
+    Option.bind_some] at this
+  exact this
+
+theorem ncols_toRows (m : Matrix α) (h : m.Inv) : Rows.ncols m.toRows = m.columns :=
+  ncols_of_rect (rect_toRows m h) (by rw [length_toRows]; exact h.2.1)
+
+/-- the transposed rows, in terms of the checked getter -/
+theorem transpose_toRows (m : Matrix α) (h : m.Inv) :
+    Rows.transpose m.toRows =
+      (List.range m.columns).map fun c => (List.range m.rows).filterMap fun r => m.tryGet r c := by
+  unfold Rows.transpose
+  rw [ncols_toRows m h]
+  apply List.map_congr_left
+  intro c _
+  exact column_toRows m c
+
+theorem rect_transpose_toRows (m : Matrix α) (h : m.Inv) :
+    Rect m.rows (Rows.transpose m.toRows) := by
+  rw [transpose_toRows m h]
+  intro r hr
+  simp only [List.mem_map, List.mem_range] at hr
+  obtain ⟨c, hc, rfl⟩ := hr
+  rw [length_filterMap_all_some]
+  · simp
+  · intro r hr
+    exact tryGet_isSome m h.1 (List.mem_range.mp hr) hc
+
+theorem length_transpose_toRows (m : Matrix α) (h : m.Inv) :
+    (Rows.transpose m.toRows).length = m.columns := by
+  rw [transpose_toRows m h]; simp
+
+/-- `transpose` as a value, on an invariant-satisfying matrix -/
+theorem transposeP_spec (m : Matrix α) (h : m.Inv) :
+    m.transposeP = .ok (ofRows (Rows.transpose m.toRows) m.rows) := by
+  unfold transposeP fromFn indexPairs
+  rw [fromFnLoop_pairs]
+  · have e : (List.map (fun r => List.filterMap (fun c => (m.getP c r).toOption) (List.range m.rows))
+        (List.range m.columns)) = Rows.transpose m.toRows := by
+      rw [transpose_toRows m h]
+      apply List.map_congr_left
+      intro c _
+      apply filterMap_congr'
+      intro r _
+      exact getP_toOption m r c
+    simp only [e]
+    have hl : (Rows.transpose m.toRows).flatten.length = m.columns * m.rows := by
+      rw [length_flatten_rect (rect_transpose_toRows m h), length_transpose_toRows m h]
+    have hne : (Rows.transpose m.toRows).flatten ≠ [] := by
+      intro e'
+      rw [e'] at hl
+      have : 1 ≤ m.columns * m.rows := Nat.mul_le_mul h.2.2 h.2.1
+      simp at hl; omega
+    simp only [fromFlatRowMajor, hl, hne, ne_eq, not_false_eq_true, and_self, if_true, ofRows,
+      length_transpose_toRows m h]
+  · intro c hc r hr
+    obtain ⟨x, hx⟩ := tryGet_isSome m h.1 (List.mem_range.mp hr) (List.mem_range.mp hc)
+    exact ⟨x, getP_of_tryGet m hx⟩
+
 end Matrix
 end EasyMl
